@@ -134,70 +134,92 @@ Definition int_of_text (neg : bool) (ds : bytes) : option Z :=   (* strconv.Pars
   if neg then (if m <=? max_int + 1 then Some (- Z.of_N m)%Z else None)
   else (if m <=? max_int then Some (Z.of_N m) else None).
 
+(* `s[i] == c` on the not-yet-consumed suffix *)
+Definition expect (c : N) (s : bytes) : option bytes :=
+  match s with x :: r => if x =? c then Some r else None | [] => None end.
+
+(* the optional sign of i: *)
+Definition take_sign (s : bytes) : bool * bytes :=
+  match s with
+  | x :: t => if x =? 45 then (true, t) else if x =? 43 then (false, t) else (false, s)
+  | [] => (false, s)
+  end.
+
 (* parsePhpValue / parsePhpArray over the not-yet-consumed suffix (the code's s[*idx:]).
-   [parse_pairs] is the `for i := 0; i < n; i++` loop. *)
+   [parse_pairs] is the `for i := 0; i < n; i++` loop.  Characters: N 78, b 98, i 105, s 115,
+   a 97, colon 58, semicolon 59, double quote 34, { 123, } 125, digits 48... *)
 Fixpoint parse_value (fuel : nat) (s : bytes) {struct fuel} : pres (value * bytes) :=
   match fuel with O => POutOfFuel | S f =>
   match s with
-  | 78 :: r =>                                                   (* 'N' *)
-      match r with 59 :: r' => POk (VNull, r') | _ => PFail end
-  | 98 :: r =>                                                   (* 'b': b:0; b:1; *)
-      match r with
-      | 58 :: c :: 59 :: r' => if c =? 48 then POk (VBool false, r')
-                               else if c =? 49 then POk (VBool true, r') else PFail
+  | [] => PFail
+  | c :: r =>
+    if c =? 78 then                                               (* N; *)
+      match expect 59 r with Some r' => POk (VNull, r') | None => PFail end
+    else if c =? 98 then                                          (* b:0; b:1; *)
+      match expect 58 r with
+      | Some (x :: r2) =>
+        match expect 59 r2 with
+        | Some r' => if x =? 48 then POk (VBool false, r')
+                     else if x =? 49 then POk (VBool true, r') else PFail
+        | None => PFail end
       | _ => PFail end
-  | 105 :: r =>                                                  (* 'i' *)
-      match r with
-      | 58 :: r1 =>
-        let '(neg, r2) := match r1 with
-                          | 45 :: t => (true, t)
-                          | 43 :: t => (false, t)
-                          | _ => (false, r1) end in
+    else if c =? 105 then                                         (* i:[+-]digits; *)
+      match expect 58 r with
+      | Some r1 =>
+        let (neg, r2) := take_sign r1 in
         let (ds, r3) := span_digits r2 in
-        match ds, r3 with
-        | _ :: _, 59 :: r4 => match int_of_text neg ds with
-                              | Some z => POk (VInt z, r4)
-                              | None => PFail end
+        match ds, expect 59 r3 with
+        | _ :: _, Some r4 => match int_of_text neg ds with
+                             | Some z => POk (VInt z, r4)
+                             | None => PFail end
         | _, _ => PFail end
-      | _ => PFail end
-  | 115 :: r =>                                                  (* 's' *)
-      match r with
-      | 58 :: r1 =>
+      | None => PFail end
+    else if c =? 115 then                                         (* s:len:"bytes"; *)
+      match expect 58 r with
+      | Some r1 =>
         let (ds, r2) := span_digits r1 in
-        match ds, r2 with
-        | _ :: _, 58 :: 34 :: r3 =>
-          let n := val_digits ds in
-          if max_int <? n then PFail                                  (* Atoi error *)
-          else if N.of_nat (length r3) <? n + 2 then PFail             (* n > len(s)-j-2 *)
-          else match skipn (N.to_nat n) r3 with
-               | 34 :: 59 :: r4 => POk (VStr (firstn (N.to_nat n) r3), r4)
-               | _ => PFail end
+        match ds, expect 58 r2 with
+        | _ :: _, Some r2' =>
+          match expect 34 r2' with
+          | Some r3 =>
+            let n := val_digits ds in
+            if max_int <? n then PFail                                  (* Atoi error *)
+            else if N.of_nat (length r3) <? n + 2 then PFail             (* n > len(s)-j-2 *)
+            else match expect 34 (skipn (N.to_nat n) r3) with
+                 | Some r3' => match expect 59 r3' with
+                               | Some r4 => POk (VStr (firstn (N.to_nat n) r3), r4)
+                               | None => PFail end
+                 | None => PFail end
+          | None => PFail end
         | _, _ => PFail end
-      | _ => PFail end
-  | 97 :: r =>                                                   (* 'a': parsePhpArray *)
-      match r with
-      | 58 :: r1 =>
+      | None => PFail end
+    else if c =? 97 then                                          (* parsePhpArray: a:n:{...} *)
+      match expect 58 r with
+      | Some r1 =>
         let (ds, r2) := span_digits r1 in
-        match ds, r2 with
-        | _ :: _, 58 :: 123 :: r3 =>
-          let n := val_digits ds in
-          if max_int <? n then PFail
-          else if N.of_nat (length r3) / 4 <? n then PFail             (* n > (len(s)-j)/4 *)
-          else match parse_pairs f n r3 with
-               | POk (kvs, r4) =>
-                 match r4 with
-                 | 125 :: r5 =>
-                   if sequential 0 kvs then POk (VList (map snd kvs), r5)
-                   else match build_map kvs [] with
-                        | Some m => POk (VMap m, r5)
-                        | None => PUnmodelled end
-                 | _ => PFail end
-               | PFail => PFail
-               | POutOfFuel => POutOfFuel
-               | PUnmodelled => PUnmodelled end
+        match ds, expect 58 r2 with
+        | _ :: _, Some r2' =>
+          match expect 123 r2' with
+          | Some r3 =>
+            let n := val_digits ds in
+            if max_int <? n then PFail
+            else if N.of_nat (length r3) / 4 <? n then PFail             (* n > (len(s)-j)/4 *)
+            else match parse_pairs f n r3 with
+                 | POk (kvs, r4) =>
+                   match expect 125 r4 with
+                   | Some r5 =>
+                     if sequential 0 kvs then POk (VList (map snd kvs), r5)
+                     else match build_map kvs [] with
+                          | Some m => POk (VMap m, r5)
+                          | None => PUnmodelled end
+                   | None => PFail end
+                 | PFail => PFail
+                 | POutOfFuel => POutOfFuel
+                 | PUnmodelled => PUnmodelled end
+          | None => PFail end
         | _, _ => PFail end
-      | _ => PFail end
-  | _ => PFail
+      | None => PFail end
+    else PFail
   end end
 with parse_pairs (fuel : nat) (n : N) (s : bytes) {struct fuel} : pres (list (value * value) * bytes) :=
   match fuel with O => POutOfFuel | S f =>
@@ -226,18 +248,25 @@ Definition parse_strict (s : bytes) : pres value :=
 (* strings.TrimSpace: ASCII \t \n \v \f \r and space, and the Unicode White_Space code points
    written in UTF-8: U+0085, U+00A0, U+1680, U+2000..U+200A, U+2028, U+2029, U+202F, U+205F, U+3000 *)
 Definition ascii_space (c : N) : bool := ((9 <=? c) && (c <=? 13)) || (c =? 32).
+Definition sp_e280 (c : N) : bool :=       (* third byte of U+2000..200A, 2028, 2029, 202F *)
+  ((128 <=? c) && (c <=? 138)) || (c =? 168) || (c =? 169) || (c =? 175).
 Definition strip_space_prefix (s : bytes) : option bytes :=
   match s with
-  | c :: r => if ascii_space c then Some r else
-    match s with
-    | 194 :: c1 :: r' => if (c1 =? 133) || (c1 =? 160) then Some r' else None
-    | 225 :: 154 :: 128 :: r' => Some r'
-    | 226 :: 128 :: c2 :: r' =>
-        if ((128 <=? c2) && (c2 <=? 138)) || (c2 =? 168) || (c2 =? 169) || (c2 =? 175) then Some r' else None
-    | 226 :: 129 :: 159 :: r' => Some r'
-    | 227 :: 128 :: 128 :: r' => Some r'
-    | _ => None end
   | [] => None
+  | c :: r =>
+    if ascii_space c then Some r
+    else if c =? 194 then
+      match r with c1 :: r' => if (c1 =? 133) || (c1 =? 160) then Some r' else None | _ => None end
+    else if c =? 225 then
+      match r with c1 :: c2 :: r' => if (c1 =? 154) && (c2 =? 128) then Some r' else None | _ => None end
+    else if c =? 226 then
+      match r with
+      | c1 :: c2 :: r' => if (c1 =? 128) && sp_e280 c2 then Some r'
+                          else if (c1 =? 129) && (c2 =? 159) then Some r' else None
+      | _ => None end
+    else if c =? 227 then
+      match r with c1 :: c2 :: r' => if (c1 =? 128) && (c2 =? 128) then Some r' else None | _ => None end
+    else None
   end.
 Fixpoint trim_left (fuel : nat) (s : bytes) : bytes :=
   match fuel with O => s | S f =>
@@ -245,16 +274,21 @@ Fixpoint trim_left (fuel : nat) (s : bytes) : bytes :=
 (* the same set read backwards (utf8.DecodeLastRune) on the reversed string *)
 Definition strip_space_suffix_rev (s : bytes) : option bytes :=
   match s with
-  | c :: r => if ascii_space c then Some r else
-    match s with
-    | c1 :: 194 :: r' => if (c1 =? 133) || (c1 =? 160) then Some r' else None
-    | 128 :: 154 :: 225 :: r' => Some r'
-    | c2 :: 128 :: 226 :: r' =>
-        if ((128 <=? c2) && (c2 <=? 138)) || (c2 =? 168) || (c2 =? 169) || (c2 =? 175) then Some r' else None
-    | 159 :: 129 :: 226 :: r' => Some r'
-    | 128 :: 128 :: 227 :: r' => Some r'
-    | _ => None end
   | [] => None
+  | c :: r =>                                  (* c = last byte of the string *)
+    if ascii_space c then Some r
+    else match r with
+         | p1 :: r1 =>
+           if ((c =? 133) || (c =? 160)) && (p1 =? 194) then Some r1
+           else match r1 with
+                | p2 :: r2 =>
+                  if (c =? 128) && (p1 =? 154) && (p2 =? 225) then Some r2
+                  else if sp_e280 c && (p1 =? 128) && (p2 =? 226) then Some r2
+                  else if (c =? 159) && (p1 =? 129) && (p2 =? 226) then Some r2
+                  else if (c =? 128) && (p1 =? 128) && (p2 =? 227) then Some r2
+                  else None
+                | [] => None end
+         | [] => None end
   end.
 Fixpoint trim_right_rev (fuel : nat) (s : bytes) : bytes :=
   match fuel with O => s | S f =>
